@@ -45,6 +45,11 @@ def _decide(agent, markets):
     per_agent = menu.get("per_agent", {}).get(str(aid))
     if per_agent is not None:
         acts = per_agent.get("acts", acts)
+    abt = menu.get("acts_by_time")
+    if abt:
+        ks = [int(x) for x in abt if int(x) <= t]
+        if ks:
+            acts = abt[str(max(ks))]
     limit = menu.get("max_consults")
     if limit is not None and k >= limit:
         return []
